@@ -333,7 +333,7 @@ def describe(zf, op, depth=0):
     if op['k'] == 'const':
         return str(op.get('int', op.get('disp')))
     pl = op['pl']
-    if depth > 8:
+    if depth > 24:
         return '?'
     if pl.get('p'):
         ps = pl['p']
